@@ -156,18 +156,16 @@ def main():
                 steps += st.get("steps", 0)
             elif verdict == "refuted":
                 src = next(p["src"] for p in ps if p["name"] == o["prog"])
-                rep.failed_ob(Finding("C05", f"C05/bisim/{label}", f"{o['prog']}|{' '.join(var)}|{(wit or {}).get('what', '')[:60]}",
+                rep.bounded_violation(Finding("C05", f"C05/bisim/{label}", f"{o['prog']}|{' '.join(var)}|{(wit or {}).get('what', '')[:60]}",
                                       f"{label}: optimised and unoptimised machines are not equivalent: {wit.get('what')} (state {wit.get('state_a')} vs {wit.get('state_b')}, symbol {wit.get('symbol')}, reached via {wit.get('reached_via', wit.get('via'))})",
                                       replay={"program": o["prog"], "source": src if o["prog"].startswith("gen/") else None, "variant": var, "witness": wit}, replayed=True))
-                rep.obligations -= 1
             elif verdict == "note":
                 if len(rep.notes) < 30:
                     rep.notes.append(f"{label}: {wit['what']}")
             else:
                 rep.undecided_ob(f"C05/bisim/{label}", str(wit))
         for (c, msg) in o.get("pass_fails", []):
-            rep.failed_ob(Finding("C05", f"C05/rtc/{c}", f"{o['prog']}|{c}", f"{o['prog']}: {msg}", replay={"program": o["prog"]}, replayed=True))
-            rep.obligations -= 1
+            rep.bounded_violation(Finding("C05", f"C05/rtc/{c}", f"{o['prog']}|{c}", f"{o['prog']}: {msg}", replay={"program": o["prog"]}, replayed=True))
         for k, v in o.get("pass_counts", {}).items():
             pass_counts[k] = pass_counts.get(k, 0) + v
     rep.bounded_count("machine pairs proved bisimilar in eager normal form (program x variant)", n_ok)
